@@ -306,4 +306,30 @@ example : run (init true) [.create, .deleteStart, .actorDelete 0] = none := rfl
 
 end P1slice
 
+/-! ### "report their topic as deleted, and are not re-attached when a topic with the same name is created again" -/
+
+/-- In every state satisfying the global invariant and for EVERY next request (CreateTopic of the
+    same name included): a subscription whose topic has been deleted keeps reporting
+    `_deleted-topic_` for as long as it exists. (`Sys.abs` is the abstraction of `C10_refines_map`; a
+    reference of `none` is what `GetSubscription` / `ListSubscriptions` render as `_deleted-topic_`.) -/
+theorem C11_deleted_topic_is_forever (sys : Sys) (h : SysInv sys) (r : Req) (k : Name) (e : SpecSub)
+    (hk : alookup k sys.abs.subs = some e) (hn : e.topic = none) :
+    alookup k (sys.rpc r).1.abs.subs = none ∨ ∃ e', alookup k (sys.rpc r).1.abs.subs = some e' ∧ e'.topic = none := by
+  rw [(C10_refines_map sys h r).1]
+  exact Spec.deleted_topic_is_forever sys.abs r k e hk hn
+
+/-- … and that reference is exactly what a read reports. -/
+theorem C11_deleted_topic_reported (sys : Sys) (raw : Bytes) (n : Name) (e : SpecSub) (hp : parseSubName raw = some n)
+    (hk : alookup n sys.abs.subs = some e) (hn : e.topic = none) :
+    ∃ res, (sys.rpc (.getSub raw)).2 = .sub res ∧ res.topic = deletedTopicStr := by
+  rw [findSub_abs] at hk
+  cases hf : sys.findSub n with
+  | none => rw [hf] at hk; cases hk
+  | some ent =>
+    rw [hf] at hk
+    simp only [Option.map_some, Option.some.injEq] at hk
+    refine ⟨sys.subRes ent, by simp [Sys.rpc, hp, hf], ?_⟩
+    rw [subRes_eq, hk]
+    simp [SpecSub.res, hn]
+
 end Deltio
